@@ -140,7 +140,11 @@ fn gen(r: &mut Rng, _i: u64) -> Vec<String> {
     } else {
         (ENTRIES.iter().collect(), r.range(2, 12), 1)
     };
-    let calls: Vec<String> = (0..len).map(|_| gen_call(r, *r.clone().pick(&pool), maxarg)).map(|c| { r.next(); c }).collect();
+    let mut calls: Vec<String> = vec![];
+    for _ in 0..len {
+        let e: &Entry = *r.pick(&pool);
+        calls.push(gen_call(r, e, maxarg));
+    }
     vec![format!("samesig.hist\t{}", calls.join(";"))]
 }
 
